@@ -21,10 +21,16 @@ S6Pairs(G, k, v, cur) ==     \* edges {x, v} with x < v, vertex by vertex; cur =
                   first == IF v = cur + 1 THEN <<1>> ELSE <<0>>
                   rest == [i \in 1..(Len(xs) - 1) |-> <<0>> \o BitsOf(xs[i + 1], k)] IN
               move \o first \o BitsOf(xs[1], k) \o FoldLeft(LAMBDA a, b : a \o b, <<>>, rest) \o S6Pairs(G, k, v + 1, v)
-S6Write(G) == <<58>> \o NBytes(G.n) \o RBytes(PadTo6(S6Pairs(G, S6K(G.n), 0, 0), 1))
-(* n in {2,4,8,16} with an edge at n-2 and none at n-1 needs the special padding, so restrict this check to the others *)
-NeedsSpecialPad(G) == G.n \in {2, 4} /\ Deg(G, G.n - 1) = 0 /\ Deg(G, G.n - 2) > 0
-ASSUME \A G \in Small : NeedsSpecialPad(G) \/ (LET d == S6Decode(S6Write(G)) IN d.ok /\ d.G = G)
+(* padding with 1-bits; special case of the definition: n in {2,4,8,16}, vertex n-2 has an edge, n-1 has none and k+1 or more bits *)
+(* are to be added: one 0-bit, then 1-bits (otherwise the padding would read as the pair (1, n-1), a loop at n-1)                  *)
+NeedsSpecialPad(G) == G.n \in {2, 4, 8, 16} /\ Deg(G, G.n - 1) = 0 /\ Deg(G, G.n - 2) > 0
+S6Padded(G) == LET bits == S6Pairs(G, S6K(G.n), 0, 0)
+                   pad == (6 - (Len(bits) % 6)) % 6 IN
+               IF NeedsSpecialPad(G) /\ pad >= S6K(G.n) + 1 THEN PadTo6(bits \o <<0>>, 1) ELSE PadTo6(bits, 1)
+S6Write(G) == <<58>> \o NBytes(G.n) \o RBytes(S6Padded(G))
+ASSUME \A G \in Small : LET d == S6Decode(S6Write(G)) IN d.ok /\ d.G = G /\ ~d.loop
+(* without the special case the exact-fit padding does read back as a loop: the path 0-2-1 with vertex 3 isolated *)
+ASSUME LET G == MkGraph(4, {{0, 2}, {1, 2}}) IN S6Decode(<<58>> \o NBytes(4) \o RBytes(PadTo6(S6Pairs(G, 2, 0, 0), 1))).loop
 Codes(n) == [1..(n - 2) -> 0..(n - 1)]
 ASSUME \A n \in 2..5 : \A p \in Codes(n) : IsTree(PruferDecode(p)) /\ PruferEncode(PruferDecode(p)) = p
 ASSUME \A n \in 2..5 : Cardinality({ PruferDecode(p) : p \in Codes(n) }) = Cardinality(Codes(n))
